@@ -276,8 +276,8 @@ func c15Live(c *CheckCtx) ([]eterm, error) {
 
 func init() {
 	props["C15"] = &propDef{
-		Level: "exploration",
-		Rule: "every error term of the grammar: leaves = nil, 12 package sentinels, context errors, TimeoutError/ValidationError/ElectionError/TokenValidationError values, nats.go exported and API errors, errors.New over a word alphabet containing every pattern of error.go in both cases; wrappers = fmt.Errorf(%w) (two texts), ElectionError, errors.Join, TimeoutError, nested to depth 3, plus sampled two-leaf joins; plus error values captured live from an embedded nats-server through the real adapter. Exclusivity/totality checked on every term; distinct_nontrivial = terms with exactly one classified leaf under neutral wrappers, for which the statement fixes the class",
+		Level:  "exploration",
+		Rule:   "every error term of the grammar: leaves = nil, 12 package sentinels, context errors, TimeoutError/ValidationError/ElectionError/TokenValidationError values, nats.go exported and API errors, errors.New over a word alphabet containing every pattern of error.go in both cases; wrappers = fmt.Errorf(%w) (two texts), ElectionError, errors.Join, TimeoutError, nested to depth 3, plus sampled two-leaf joins; plus error values captured live from an embedded nats-server through the real adapter. Exclusivity/totality checked on every term; distinct_nontrivial = terms with exactly one classified leaf under neutral wrappers, for which the statement fixes the class",
 		Assume: []string{"'permission / configuration / missing-bucket' errors are the library's sentinels and ValidationError plus nats.ErrBucketNotFound; texts outside the word alphabet are not enumerated"},
 		Direct: c15Direct,
 	}
